@@ -1,0 +1,39 @@
+//go:build verif
+
+package lossy
+
+import "github.com/deepteams/webp/internal/bitio"
+
+// Verification hooks for property C13: what a hand-assembled VP8 key frame
+// needs (decoder tables, boolean entropy encoder).  Add-only.
+
+// VerifArchVP8Tables are the decoder tables a hand-assembled key frame needs.
+type VerifArchVP8Tables struct {
+	CoeffsProba0      [NumTypes][NumBands][NumCTX][NumProbas]uint8
+	CoeffsUpdateProba [NumTypes][NumBands][NumCTX][NumProbas]uint8
+	KBands            [16 + 1]uint8
+	Cat3456           [4][]uint8
+	KDcTable          [128]int
+	KAcTable          [128]int
+}
+
+// VerifArchTables returns copies of the tables.
+func VerifArchTables() VerifArchVP8Tables {
+	t := VerifArchVP8Tables{CoeffsProba0: CoeffsProba0, CoeffsUpdateProba: CoeffsUpdateProba, KBands: KBands}
+	for i, c := range kCat3456 {
+		t.Cat3456[i] = append([]uint8(nil), c...)
+	}
+	for i := 0; i < 128; i++ {
+		t.KDcTable[i] = int(KDcTable[i])
+		t.KAcTable[i] = int(KAcTable[i])
+	}
+	return t
+}
+
+// VerifArchBoolWriter is the VP8 boolean entropy encoder.
+type VerifArchBoolWriter = bitio.BoolWriter
+
+// VerifArchNewBoolWriter returns a fresh boolean encoder.
+func VerifArchNewBoolWriter(expectedSize int) *VerifArchBoolWriter {
+	return bitio.NewBoolWriter(expectedSize)
+}
